@@ -379,6 +379,7 @@ def run_case(ctx, case):
 
     import copy as _copy
     given_before = _copy.deepcopy({"attrs": attrs, "constants": stored_constants, "run_constants": run_constants, "resources": resources})
+    case_dicts_before = _copy.deepcopy(cases_arg) if use_cases and isinstance(cases_arg, list) and cases_arg and isinstance(cases_arg[0], dict) else None
     out, err, runner = None, None, None
     try:
         with quiet():
@@ -444,6 +445,11 @@ def run_case(ctx, case):
         ctx.count("caller_mappings_compared")
         if repr(gv) != repr(given_before[gk]):
             bad.append("the %s mapping handed in by the caller was modified by the call: %r -> %r" % (gk, given_before[gk], gv))
+
+    if case_dicts_before is not None:
+        ctx.count("caller_mappings_compared")
+        if repr(cases_arg) != repr(case_dicts_before):
+            bad.append("the case dicts handed in by the caller were modified by the call: %r -> %r" % (case_dicts_before[:2], cases_arg[:2]))
 
     def expected_outputs(p):
         v = probe.make(kind, {**p, **full_kwargs_extra})
